@@ -83,7 +83,6 @@ def S.attr : S → Attr
 structure Ctx where
   setDefaults : Bool := true      -- `DefaultsSet` installed (Options.SkipSettingDefaults is off)
   roDisabled : Bool := false      -- Options.ExcludeReadOnlyValidations
-  multi : Bool := false           -- Options.MultiError: a failing member does not end the visit of its object / array
   deriving Repr
 
 def lookup (k : String) : List (String × α) → Option α
@@ -204,84 +203,66 @@ end
 
 def accepts (c : Ctx) (s : S) (v : J) : Bool := (visit c s v).isSome
 
-/-! ### did the visit set a default ANYWHERE — the `DefaultsSet` callback
+/-! ### did the visit set a default in the value — the `DefaultsSet` callback
 
-`settings.onceSettingDefaults.Do(settings.defaultsSet)` runs wherever visitJSONObject writes a default: into the value
-itself, but also into the private deep copy a oneOf/anyOf candidate is tried on, whether or not that candidate then
-accepts.  ValidateRequestBody re-encodes the body iff the callback ran.  `touched` follows the traversal of the code,
-early exits included (a rejected visit is what happens inside a discarded candidate):
-  * object on an object value: the defaults loop runs first; then the members are visited in the order of their keys;
-    without MultiError the first failing member ends the visit, and so does the first key without a property schema
-    when additional properties are forbidden (members with greater keys are not visited any more);
-  * array: items in order, the first failing one ends the visit (without MultiError);
-  * oneOf: every branch is tried; anyOf: the branches up to the first accepting one; allOf: the members in order, on the
-    value as the earlier ones left it, up to the first failing one; the second run on the matched branch sets the
-    defaults the trial run of that branch set;
-  * null, scalars, type mismatches: nothing is visited.
-Needs the property lists sorted by name (they are the sorted keys of a Go map; the driver sorts them). -/
+`settings.onceSettingDefaults.Do(settings.defaultsSet)` runs where visitJSONObject writes a default while
+`settings.trial == 0`, i.e. NOT while a oneOf/anyOf candidate is tried on its private deep copy (repaired code, commit
+6a3f133: under a request reading every candidate runs on a copy); it does run when the matched branch is run again on
+the value itself, and for every allOf member.  ValidateRequestBody looks at the callback only after an ACCEPTED visit
+and re-encodes the body iff it ran.  `touched` follows the accepted visit: the defaults loop of an object, then its
+members (each on the value its own visit is given), the items of an array, the branch that is run again (the first
+accepting one), the allOf chain.  For a rejected visit its value means nothing. -/
 
-/-- the smallest key of the value that has no property schema -/
-def firstUnknown (props : List (String × S)) : List (String × J) → Option String
-  | [] => none
-  | (k, _) :: r =>
-    match firstUnknown props r with
-    | none => if (lookup k props).isSome then none else some k
-    | some m => if (lookup k props).isSome then some m else (if k < m then some k else some m)
-
-/-- the key at which the member loop of visitJSONObject returns "property … is unsupported", if it gets that far -/
-def stopKey (c : Ctx) (addl : Bool) (props : List (String × S)) (kvs1 : List (String × J)) : Option String :=
-  if addl || c.multi then none else firstUnknown props kvs1
-
-def beyond (stop : Option String) (k : String) : Bool := match stop with | some u => u < k | none => false
-
-/-- `f` on the items in order, up to and including the first item on which `ends` holds -/
-def anyUntil (f ends : J → Bool) : List J → Bool
+def anyItem (f : J → Bool) : List J → Bool
   | [] => false
-  | x :: r => f x || (if ends x then false else anyUntil f ends r)
+  | x :: r => f x || anyItem f r
 
 mutual
 def touched (c : Ctx) : S → J → Bool
   | .leaf _ _, _ => false
-  | .obj _ _ props addl, v =>
+  | .obj _ _ props _, v =>
     match v with
     | .obj kvs =>
-      (c.setDefaults && (defaulted c props kvs).length != kvs.length) ||
-        touchedProps c (stopKey c addl props (defaulted c props kvs)) props (defaulted c props kvs)
+      (c.setDefaults && (defaulted c props kvs).length != kvs.length) || touchedProps c props (defaulted c props kvs)
     | _ => false
   | .arr _ items, v =>
     match v with
-    | .arr xs => anyUntil (fun x => touched c items x) (fun x => (visit c items x).isNone && !c.multi) xs
+    | .arr xs => anyItem (fun x => touched c items x) xs
     | _ => false
   | .comb _ k bs, v =>
     if v.isNull then false
     else match k with
-      | .oneOf => touchedEach c bs v
-      | .anyOf => touchedUntilMatch c bs v
       | .allOf => touchedChain c bs v
-def touchedProps (c : Ctx) (stop : Option String) : List (String × S) → List (String × J) → Bool
+      | _ => touchedMatched c bs v
+/-- the members, as `visitProps` goes through them -/
+def touchedProps (c : Ctx) : List (String × S) → List (String × J) → Bool
   | [], _ => false
-  | (k, s) :: ps, kvs1 =>
-    match lookup k kvs1 with
-    | none => touchedProps c stop ps kvs1
-    | some x =>
-      if beyond stop k then false
-      else touched c s x || (if (visit c s x).isNone && !c.multi then false else touchedProps c stop ps kvs1)
-def touchedEach (c : Ctx) : List S → J → Bool
+  | (k, s) :: ps, kvs =>
+    match lookup k kvs with
+    | none => touchedProps c ps kvs
+    | some x => touched c s x || (match visit c s x with | some x' => touchedProps c ps (setKey k x' kvs) | none => false)
+/-- the branch that is run again on the value: the first accepting one -/
+def touchedMatched (c : Ctx) : List S → J → Bool
   | [], _ => false
-  | b :: bs, v => touched c b v || touchedEach c bs v
-def touchedUntilMatch (c : Ctx) : List S → J → Bool
-  | [], _ => false
-  | b :: bs, v => touched c b v || (if (visit c b v).isSome then false else touchedUntilMatch c bs v)
+  | b :: bs, v => if (visit c b v).isSome then touched c b v else touchedMatched c bs v
 def touchedChain (c : Ctx) : List S → J → Bool
   | [], _ => false
   | b :: bs, v => touched c b v || (match visit c b v with | some v1 => touchedChain c bs v1 | none => false)
 end
 
-/-- the property names of every object node are in ascending order -/
-def sortedKeys : List String → Bool
-  | [] => true
-  | [_] => true
-  | a :: b :: r => a < b && sortedKeys (b :: r)
+mutual
+/-- number of nodes of a value: defaults only ever add members, so it never shrinks and grows iff something was set -/
+def J.size : J → Nat
+  | .arr xs => 1 + sizeList xs
+  | .obj kvs => 1 + sizeKvs kvs
+  | _ => 1
+def sizeList : List J → Nat
+  | [] => 0
+  | x :: r => x.size + sizeList r
+def sizeKvs : List (String × J) → Nat
+  | [] => 0
+  | (_, x) :: r => x.size + sizeKvs r
+end
 
 /-- the value after `n` validations (each one must accept) -/
 def visitN (c : Ctx) (s : S) : Nat → J → Option J
@@ -374,12 +355,6 @@ def specVisitAll (c : Ctx) : List S → J → Option J
   | [], v => some v
   | b :: bs, v => (specVisit c b v).bind (fun v' => specVisitAll c bs v')
 end
-
-/-- F-C13-11: the `DefaultsSet` callback ran although the accepted value is unchanged — a default was written only into
-    the private copy of a oneOf/anyOf candidate that was then discarded — so the body is re-encoded (other bytes, same
-    value) or, without an encoder, the valid request is rejected -/
-def DiscardedCandidateTouches (c : Ctx) (s : S) (v : J) : Bool :=
-  touched c s v && (match visit c s v with | some v' => J.beq v' v | none => false)
 
 /-- finding #37: with compositions in the schema, validating the forwarded value again gives something else -/
 def BranchShift (c : Ctx) (s : S) (v : J) : Bool :=
